@@ -1232,6 +1232,9 @@ def judge_accept(run, p: Params, out: Outcome) -> bool:
             sig += "/loops>=500"
         if "Missing segment" in e.msg and p.degenerate_depth():
             sig += "/degenerate-depth"
+        elif "Missing segment" in e.msg and any("availabilityStartTime has changed" in x.msg for x in run.errors):
+            # the validator went on asking for the segments of the previous manifest, whose URLs carry the old start
+            sig += "/after-ast-change"
         if "Sequence number error" in e.msg and p.mup_s and p.tsbd_s and p.mup_s > p.tsbd_s:
             # the refreshed manifest no longer overlaps the previous one: segments were skipped between the two
             sig += "/mup>depth"
